@@ -42,6 +42,23 @@ LAYOUT_UNIVERSE = Universe({
 })
 
 
+def spelled(uni, slot, mod, code):
+    """module string of an import statement in `slot` that refers to slot `mod`:
+    code 0 = relative level 1, 1 = absolute, 2 = relative level 2"""
+    import posixpath
+    t = uni.paths[mod]
+    tdir, tfile = t.rsplit("/", 1)
+    base = uni.dir_of(slot)
+    if code == 2:
+        base = base.rsplit("/", 1)[0]
+    target = tdir if tfile == "__init__.py" else t[:-3]
+    rel = posixpath.relpath(target, base)
+    if rel.startswith(".."):
+        raise ToolError("import from %s to %s cannot be spelled with code %r" % (slot, mod, code))
+    dotted = rel.replace("/", ".")
+    return {0: ".", 1: "", 2: ".."}[code] + dotted
+
+
 def _seq(x):
     # TLC's ToJson prints an empty sequence/tuple as [] and functions with domain 1..n as arrays
     return list(x) if x else []
@@ -136,16 +153,16 @@ def render_module(uni, slot, module, style=None):
             lines.append(indent + "    pass")
             r.item_line[idx] = dl
         elif k == "star":
-            lines.append("from .%s import *" % uni.modname(it["mod"]))
-            _check_same_dir(uni, slot, it["mod"])
+            lines.append("from %s import *" % spelled(uni, slot, it["mod"], it.get("scope", 0)))
             r.item_line[idx] = ln
         elif k == "imp":
-            lines.append("from .%s import %s" % (uni.modname(it["mod"]), it["name"]))
-            _check_same_dir(uni, slot, it["mod"])
+            lines.append("from %s import %s" % (spelled(uni, slot, it["mod"], it.get("scope", 0)), it["name"]))
+            r.item_line[idx] = ln
+        elif k == "impas":
+            lines.append("from %s import %s as %s" % (spelled(uni, slot, it["mod"], it.get("scope", 0)), _seq(it["marks"])[0], it["name"]))
             r.item_line[idx] = ln
         elif k == "plugins":
-            lines.append('pytest_plugins = ["%s"]' % uni.modname(it["mod"]))
-            _check_same_dir(uni, slot, it["mod"])
+            lines.append('pytest_plugins = ["%s"]' % spelled(uni, slot, it["mod"], 1))
             r.item_line[idx] = ln
         elif k == "helper":
             lines.append("def %s():" % it["name"])
@@ -293,13 +310,16 @@ def pyextract(text, uni=None, slot=None):
             elif isinstance(st, ast.ImportFrom):
                 if st.module == "pytest" or (st.module is None):
                     continue
-                mod = st.module
+                mod = "." * (st.level or 0) + st.module
                 for al in st.names:
                     if al.name == "*":
                         items.append({"k": "star", "name": "-", "deps": [], "scope": 0, "autouse": False,
                                       "mod": mod, "marks": [], "cmarks": [], "ind": []})
+                    elif al.asname:
+                        items.append({"k": "impas", "name": al.asname, "deps": [], "scope": 0, "autouse": False,
+                                      "mod": mod, "marks": [al.name], "cmarks": [], "ind": []})
                     else:
-                        items.append({"k": "imp", "name": al.asname or al.name, "deps": [], "scope": 0,
+                        items.append({"k": "imp", "name": al.name, "deps": [], "scope": 0,
                                       "autouse": False, "mod": mod, "marks": [], "cmarks": [], "ind": []})
                     pos.append({"line": st.lineno, "uses": {}})
             elif isinstance(st, ast.Assign) and len(st.targets) == 1 and isinstance(st.targets[0], ast.Name):
@@ -342,8 +362,9 @@ def _render_checked_cached(uni_id, slot, module_json):
             w = {"k": it["k"], "name": it["name"], "deps": _seq(it["deps"]), "scope": it["scope"],
                  "autouse": it["autouse"], "mod": it["mod"], "marks": _seq(it["marks"]),
                  "cmarks": _seq(it["cmarks"]), "ind": _seq(it["ind"])}
-            if w["k"] in ("star", "imp", "plugins"):
-                w["mod"] = uni.modname(w["mod"])
+            if w["k"] in ("star", "imp", "impas", "plugins"):
+                w["mod"] = spelled(uni, slot, w["mod"], 1 if w["k"] == "plugins" else w["scope"])
+                w["scope"] = 0
             want.append(w)
         if items != want:
             raise ToolError("renderer/CPython disagreement for slot %s:\nwant %r\ngot  %r\n%s"
